@@ -27,9 +27,18 @@
         = quantity resting under k at the end + executed against k + handed back by a
           cancel of k + hidden quantity of k discarded + quantity of k replaced by amends.
      Since every unit leaves through exactly one of the four outflows of exactly one
-     step, no unit is executed twice, handed to two cancellers, or lost. *)
+     step, no unit is executed twice, handed to two cancellers, or lost;
+   * snapshot() is the four-step call [CSnapshot] (program points Sn1..Sn4: visible.load,
+     hidden.load, order_count.load, orders.iter; proofs in Proofs/ConcSnapshot.v): every one
+     of its steps leaves the shared state and the other threads untouched and drains
+     nothing (C03_snapshot_is_pure); taken in one piece it returns the state of one instant
+     (C03_snapshot_alone), which is the three aggregates of the listed orders when the other
+     threads have returned (C03_snapshot_quiescent_exact); interleaved with writers it may
+     be inconsistent (C03_example_snapshot_torn), but its three counters stay within the C12
+     range (C03_snapshot_bounded, C03_snapshot_bounded_init). *)
 From PL Require Import Spec.ConcSpec Spec.ConcExample Proofs.OrderProofs Proofs.ConcInv Proofs.ConcThms
-  Proofs.ConcPerOrder.
+  Proofs.ConcPerOrder Proofs.ConcSnapshot.
+From Coq Require Import Permutation.
 Local Open Scope N_scope.
 
 (* J_step: one step of any thread preserves the invariant. *)
@@ -108,6 +117,96 @@ Theorem C03_per_order :
     resting_k k (resting l) + prog_budk k (price l) progs.
 Proof. exact per_order_ledger. Qed.
 
+(* ---- snapshot(): the four-step call CSnapshot ---- *)
+
+(* (a) A step taken at a snapshot program point changes nothing: the shared state is the
+   same, every other thread is the same, nothing is drained; its event is a load of one of
+   the three counters, or the iteration, returning what the shared state holds. *)
+Theorem C03_snapshot_is_pure :
+  forall mf c i c' e t,
+    nth_error (cf_threads c) i = Some t -> snap_pc (th_pc t) -> cstep mf c i = Some (c', e) ->
+    cf_sh c' = cf_sh c /\
+    (forall j, j <> i -> nth_error (cf_threads c') j = nth_error (cf_threads c) j) /\
+    length (cf_threads c') = length (cf_threads c) /\
+    read_ev (cf_sh c) e /\
+    drain (th_pc t) (cf_sh c) = 0.
+Proof. exact cstep_snap_pure. Qed.
+
+(* ... per program point: the successor is the next snapshot point, or the call returns *)
+Theorem C03_snapshot_points :
+  forall mf p s p' s' e,
+    tstep mf p s = Some (p', s', e) -> snap_pc p ->
+    s' = s /\ read_ev s e /\ drain p s = 0 /\
+    (snap_pc p' \/ exists v h n, p = Sn4 v h n /\ p' = Done (RetSnap v h n (sort_ts (sh_map s)))).
+Proof. exact tstep_snap. Qed.
+
+(* (b) Four steps of the snapshot thread with no step of another thread in between, from ANY
+   configuration: the call returns [snap_of] the shared state of that instant, emitting the
+   four read events of that state; the state and the other threads are as before. *)
+Theorem C03_snapshot_alone :
+  forall mf c i t,
+    nth_error (cf_threads c) i = Some t -> th_pc t = Sn1 ->
+    exists c' t' rs,
+      exec mf [i; i; i; i] c = (c', map (fun e => (i, e)) (snap_events (cf_sh c))) /\
+      cf_sh c' = cf_sh c /\
+      (forall j, j <> i -> nth_error (cf_threads c') j = nth_error (cf_threads c) j) /\
+      nth_error (cf_threads c') i = Some t' /\
+      all_rets t' = th_rets t ++ snap_of (cf_sh c) :: rs /\
+      (th_todo t = [] -> t' = mkThread (Done (snap_of (cf_sh c))) [] (th_rets t)).
+Proof. exact exec_snapshot_alone. Qed.
+
+(* ... in a configuration reached from one satisfying the invariant in which every OTHER thread
+   has returned (in particular a snapshot taken at quiescence): the three numbers returned are
+   the sums over the returned listing, which lists the resting orders, each id once. *)
+Theorem C03_snapshot_quiescent_exact :
+  forall mf, I_cons mf ->
+  forall sched c0, Inv c0 ->
+    let c := fst (exec mf sched c0) in
+    forall i t,
+      nth_error (cf_threads c) i = Some t -> th_pc t = Sn1 ->
+      (forall j u, j <> i -> nth_error (cf_threads c) j = Some u -> thread_finished u = true) ->
+      let s := cf_sh c in
+      let ls := sort_ts (sh_map s) in
+      exists c' t' rs,
+        exec mf [i; i; i; i] c = (c', map (fun e => (i, e)) (snap_events s)) /\
+        cf_sh c' = s /\
+        nth_error (cf_threads c') i = Some t' /\
+        all_rets t' = th_rets t ++ RetSnap (sumv ls) (sumh ls) (lenN ls) ls :: rs /\
+        Permutation ls (sh_map s) /\ NoDup (ids ls) /\
+        Agg (level_of_shared s).
+Proof. exact snapshot_quiescent_exact. Qed.
+
+(* ... and if the snapshot is that thread's last call the configuration is quiescent afterwards
+   (so C03_quiescent_aggregates speaks about the very state the snapshot has returned) *)
+Theorem C03_snapshot_then_quiescent :
+  forall mf c i t,
+    nth_error (cf_threads c) i = Some t -> th_pc t = Sn1 -> th_todo t = [] ->
+    (forall j u, j <> i -> nth_error (cf_threads c) j = Some u -> thread_finished u = true) ->
+    quiescent (fst (exec mf [i; i; i; i] c)) = true /\ cf_sh (fst (exec mf [i; i; i; i] c)) = cf_sh c.
+Proof. exact snapshot_last_call_quiescent. Qed.
+
+(* (c) ANY snapshot, however interleaved: each of the three counters it has loaded or returned is
+   within the C12 range (at most what was ever supplied, hence < 2^64: never a wrapped value).
+   [SnapLe B Bc c]: every RetSnap among the returns, and every value a snapshot in progress has
+   loaded, is <= B (visible, hidden) resp. <= Bc (count).  No statement about v + h: the two are
+   loaded at different instants. *)
+Theorem C03_snapshot_bounded :
+  forall mf, I_cons mf ->
+  forall sched c0, Inv c0 -> SnapLe (Supplied c0) (OrdersB c0) c0 ->
+    SnapLe (Supplied c0) (OrdersB c0) (fst (exec mf sched c0)) /\ Supplied c0 < W /\ OrdersB c0 < W.
+Proof. exact exec_snapshot_bounded. Qed.
+
+Theorem C03_snapshot_bounded_init :
+  forall mf l gen progs sched,
+    I_cons mf -> wf_progs l progs ->
+    let c := fst (exec mf sched (init_config l gen progs)) in
+    let B := sumv (resting l) + sumh (resting l) + prog_budget (price l) progs in
+    let Bc := lenN (resting l) + prog_bc progs in
+    forall i t v h n ls,
+      nth_error (cf_threads c) i = Some t -> In (RetSnap v h n ls) (all_rets t) ->
+      v <= B /\ h <= B /\ n <= Bc /\ B < W /\ Bc < W.
+Proof. exact init_snapshot_bounded. Qed.
+
 (* Corollaries for the implementation's per-order function and initial configurations. *)
 Theorem C03_match_against :
   forall l gen progs sched, wf_progs l progs ->
@@ -146,6 +245,36 @@ Example C03_example_per_order :
       (3, mkLedger 2 0 0 6, 11) ].     (* added 8, 2 executed, amended to 3: 8 + 3 = 3 + 2 + 6 *)
 Proof. vm_compute. reflexivity. Qed.
 
+(* a snapshot reader next to an adder, over the level of the example *)
+Definition ex_snap_progs : list (list call) := [ [CAdd (Standard (ex_com 4 100 4) 8)]; [CSnapshot] ].
+Example C03_example_snapshot_wf : wf_progs ex_level ex_snap_progs.
+Proof.
+  split; [vm_compute; repeat split|]. split; [|split; vm_compute; reflexivity].
+  vm_compute. repeat constructor; cbn; intuition discriminate.
+Qed.
+
+(* the adder first, then the snapshot in one piece: exact (27 = 10+4+5+8, 13 = 6+7, 4 orders) *)
+Example C03_example_snapshot_exact :
+  let c := fst (exec match_against [0; 0; 0; 0; 0; 0; 1; 1; 1; 1]%nat (init_config ex_level 1000 ex_snap_progs)) in
+  quiescent c = true /\
+  map (fun t => match th_pc t with
+                | Done (RetSnap v h n ls) => Some (v, h, n, map oid_of ls, (sumv ls, sumh ls, lenN ls))
+                | _ => None end) (cf_threads c)
+  = [None; Some (27, 13, 4, [Uuid 1; Uuid 3; Uuid 2; Uuid 4], (27, 13, 4))].
+Proof. vm_compute. split; reflexivity. Qed.
+
+(* the visible load before the add, the rest after it: a torn snapshot (19 visible reported for
+   four listed orders showing 27), yet each counter is within the C12 range (<= 40 supplied) *)
+Example C03_example_snapshot_torn :
+  let c0 := init_config ex_level 1000 ex_snap_progs in
+  let c := fst (exec match_against [1; 0; 0; 0; 0; 0; 0; 1; 1; 1]%nat c0) in
+  quiescent c = true /\ Supplied c0 = 40 /\ OrdersB c0 = 4 /\
+  map (fun t => match th_pc t with
+                | Done (RetSnap v h n ls) => Some (v, h, n, map oid_of ls, (sumv ls, sumh ls, lenN ls))
+                | _ => None end) (cf_threads c)
+  = [None; Some (19, 13, 4, [Uuid 1; Uuid 3; Uuid 2; Uuid 4], (27, 13, 4))].
+Proof. vm_compute. repeat split; reflexivity. Qed.
+
 Check C03_step : forall mf, I_cons mf ->
   forall c i c' e, Inv c -> cstep mf c i = Some (c', e) -> Inv c'.
 Check C03_quiescent_aggregates : forall mf, I_cons mf ->
@@ -153,6 +282,13 @@ Check C03_quiescent_aggregates : forall mf, I_cons mf ->
     let c := fst (exec mf sched c0) in
     quiescent c = true ->
     Agg (level_of_shared (cf_sh c)) /\ NoDup (ids (sh_map (cf_sh c))).
+Check C03_snapshot_is_pure : forall mf c i c' e t,
+    nth_error (cf_threads c) i = Some t -> snap_pc (th_pc t) -> cstep mf c i = Some (c', e) ->
+    cf_sh c' = cf_sh c /\
+    (forall j, j <> i -> nth_error (cf_threads c') j = nth_error (cf_threads c) j) /\
+    length (cf_threads c') = length (cf_threads c) /\
+    read_ev (cf_sh c) e /\
+    drain (th_pc t) (cf_sh c) = 0.
 Check C03_ledger : forall mf, I_cons mf ->
   forall sched c0, Inv c0 ->
     let g := run_ledger mf sched c0 ledger0 in
@@ -167,6 +303,16 @@ Print Assumptions C03_ledger.
 Print Assumptions C03_quiescent_ledger.
 Print Assumptions C03_per_order_step.
 Print Assumptions C03_per_order.
+Print Assumptions C03_snapshot_is_pure.
+Print Assumptions C03_snapshot_points.
+Print Assumptions C03_snapshot_alone.
+Print Assumptions C03_snapshot_quiescent_exact.
+Print Assumptions C03_snapshot_then_quiescent.
+Print Assumptions C03_snapshot_bounded.
+Print Assumptions C03_snapshot_bounded_init.
+Print Assumptions C03_example_snapshot_wf.
+Print Assumptions C03_example_snapshot_exact.
+Print Assumptions C03_example_snapshot_torn.
 Print Assumptions C03_match_against.
 Print Assumptions C03_example_per_order.
 Print Assumptions C03_example_wf.
